@@ -56,6 +56,7 @@ def main() -> int:
     situations: Counter = Counter()
     counters: Counter = Counter()
     keys = set()
+    extra_distinct = 0
     nviol = 0
     nknown = 0
     harness = []
@@ -81,6 +82,7 @@ def main() -> int:
             counters[k] += int(v)
         if res.get("nontrivial"):
             keys.add(res.get("key") or _hash(case))
+            extra_distinct += max(0, int(res.get("distinct_count", 1)) - 1)
         if res.get("sample") is not None and len(samples) < 5:
             samples.append(res["sample"])
         for v in res.get("violations", []):
@@ -117,7 +119,7 @@ def main() -> int:
         samples = [c for c in cases[:3]]
     cov = dict(
         evaluations=len(cases),
-        distinct_nontrivial=len(keys),
+        distinct_nontrivial=len(keys) + extra_distinct,
         rule=getattr(mod, "RULE", ""),
         samples=samples,
         situations=dict(situations),
